@@ -161,6 +161,22 @@ def run(ctx):
                hist["runs"] > 0 and not all_diffs, str(all_diffs[:1])[:600])
     ctx.oblige("oracle on the real runs: every symbol after its producers, values = direct evaluation, identical for all orders, cycles rejected",
                not all_viol, str(all_viol[:1])[:600])
+    # multi-species runs of the shared dyn generator (symbols read through expression, particleFactor_i OR particleFactor_j; allPairs; forces
+    # reading symbols): the stage each symbol MUST have (longest path over everything it reads) vs the stage the real binary assigned,
+    # and every pair-summed value vs its brute-force sum (a symbol evaluated before its input shows up there)
+    dyn_stage, dyn_viol, dyn_cases = [], [], 0
+    if ok and os.path.exists(common.symdrv()):
+        import dyncheck
+        dsumm, dbase = dyncheck.run_corr(ctx, 72 if not ctx.thorough else 1200, "c06d", workers=12)
+        shutil.rmtree(dbase, ignore_errors=True)
+        dyn_cases = dsumm["cases"]
+        dyn_stage = [d for d in dsumm["disagreements"] if d.get("kind") == "stages"]
+        dyn_viol = [v for v in dsumm["violations"] if v["oracle"] == "pairsum"]
+        if dyn_viol and not all_viol:
+            v = dyn_viol[0]
+            all_viol.append(dict(case=dict(scenario=v.get("scenario"), model_input=v.get("model_input")), errors=["pair-summed symbol evaluated on stale input: " + str(v["detail"])]))
+    ctx.oblige("multi-species runs (%d scenarios): required stage of every symbol (longest path over expression AND both particle factors) = stage assigned by the real binary; pair sums = brute-force sums"
+               % dyn_cases, dyn_cases > 0 and not dyn_stage and not dyn_viol, str([d.get("detail") for d in dyn_stage[:2]] + [v.get("detail") for v in dyn_viol[:1]])[:500])
     ctx.coverage.update(dict(evaluations=hist["runs"], distinct_nontrivial=len(seen),
                              rule="random dependency graphs of 3-8 symbol modules (ParticleScalar, PairScalar, PairParticleScalar; chains, diamonds, particle<->pair alternation), every 7th cyclic, every 7th with stageIterations in {1,2}; each graph run in 3 module orders (as generated, reversed, shuffled) on 3-6 particles for 2 steps; distinct = distinct dependency structures; all are non-trivial (>= 1 dependency)",
                              samples=samples, histogram=hist, traces_validated_against_impl=hist["runs"]))
